@@ -153,7 +153,14 @@ func tag(x any) string {
 	return fmt.Sprintf("%T:%v", x, x)
 }
 
-func num(v any) int { return int(v.(float64)) }
+// integers beyond 2^53 arrive as decimal strings
+func num(v any) int {
+	if s, ok := v.(string); ok {
+		n, _ := strconv.ParseInt(s, 10, 64)
+		return int(n)
+	}
+	return int(v.(float64))
+}
 
 func runCase(c Case) (out Out) {
 	out.ID = c.ID
@@ -265,7 +272,7 @@ func runCluster(c Case) (out Out) {
 		}
 		defer m.Close()
 		mrs[i] = m
-		conf[i] = cache.NodeConf{RedisConf: redis.RedisConf{Host: m.Addr(), Type: redis.NodeType}, Weight: c.Weights[i]}
+		conf[i] = cache.NodeConf{RedisConf: redis.RedisConf{Host: m.Addr(), Type: redis.NodeType, NonBlock: true}, Weight: c.Weights[i]}
 		out.Reprs = append(out.Reprs, m.Addr()) // cacheNode.String() and (*redis.Redis).String() are the address
 		row := make([]string, out.R)
 		for j := 0; j < out.R; j++ {
